@@ -195,7 +195,7 @@ def gen_random(rng, fam):
                     inbound[d] += 1
     for t in names:
         if inbound[t] >= 2 and rng.random() < fam["p_join"]:
-            tasks[t]["join"] = "all" if rng.random() < 0.6 else rng.randint(0, inbound[t])
+            tasks[t]["join"] = "all" if rng.random() < 0.6 else rng.randint(0, inbound[t] + 1)
         if rng.random() < 0.15:
             r = {"count": rng.choice([1, 2, "<% ctx().x %>"])}
             if rng.random() < 0.5:
